@@ -131,6 +131,8 @@ package moq
 //@   loop 2 invariant params-kept: forall(k, 0 <= k && k < len(params) ==> allocated(params[k].Var) && params[k].Var.vr == sigOf(f).Params().At(k))
 //@   -- C12: parameters and results of one method are allocated in ONE scope (the loop invariants scope-ok
 //@   -- name it), so that result names are checked against parameter names and imports rename both
+//@   ensures{C12} bounded-one-scope-per-method: forallEv(i, j, evIs(i, "call:registry.MethodScope.AddVar") && evIs(j, "call:registry.MethodScope.AddVar") ==> evArg(i, 0) == evArg(j, 0))
+//@   ensures{C12} bounded-every-variable-through-the-scope: forall(k, 0 <= k && k < len(md.Params) ==> existsEv(i, evIs(i, "call:registry.MethodScope.AddVar") && evRes(i) == md.Params[k].Var)) && forall(k, 0 <= k && k < len(md.Returns) ==> existsEv(i, evIs(i, "call:registry.MethodScope.AddVar") && evRes(i) == md.Returns[k].Var))
 //@   ensures name: md.Name == f.Name()
 //@   ensures one-param-per-signature-param: len(md.Params) == sigOf(f).Params().Len()
 //@   ensures one-result-per-signature-result: len(md.Returns) == sigOf(f).Results().Len()
